@@ -26,7 +26,7 @@ PROP = Prop(
         "faults are injected by wrapping Session.bulk_save_objects (flush part of the list, then raise SQLAlchemyError)",
     ],
 )
-kit.install_keyed_noise()
+kit.install_keyed_noise(per_call=True)  # repeated measurements of one pair at one epoch differ, as with real noise
 
 SITE = (20.0, 60.0)
 FK_TABLES = {
@@ -56,7 +56,9 @@ def _cases(draw):
         events.append({"kind": "impulse", "tau": draw(st.integers(1, max(1, total * dt - 1)))})
     return {"start": iso(t0), "dt": dt, "out": out, "ops": ops, "events": events, "truth_only": draw(st.sampled_from([False, False, True])),
             "filter_steps": draw(st.booleans()), "detect": draw(st.sampled_from([None, "standard_nis", "sliding_nis"])),
-            "past_stop": draw(st.sampled_from([0, 0, 0, 1, 2]))}
+            "past_stop": draw(st.sampled_from([0, 0, 0, 1, 2])),
+            # with the all-visible policy and background observations a sensor takes part in several tasks of one step
+            "policy": draw(st.sampled_from(["MunkresDecision", "MunkresDecision", "AllVisibleDecision", "MyopicNaiveGreedyDecision"]))}
 
 
 def _config(c, total_steps):
@@ -66,7 +68,8 @@ def _config(c, total_steps):
     tg = lambda j, r, off: kit.eci_target(14001 + j, kit.circular_state_over(SITE[0], SITE[1], t0, r, heading_deg=40.0 + 70 * j, offset_deg=off))  # noqa: E731
     tgts = [tg(0, 20000.0, (0, 0)), tg(1, 21000.0, (2, 3))]
     cov = [[1e-7, 0, 0, 0], [0, 1e-7, 0, 0], [0, 0, 0.01, 0], [0, 0, 0, 1e-7]]
-    sens = [kit.ground_sensor(24001, SITE[0], SITE[1], covariance=cov), kit.ground_sensor(24002, SITE[0] + 2, SITE[1] - 1, covariance=cov)]
+    wide = {"background_observations": True, "field_of_view": {"fov_shape": "conic", "cone_angle": 60.0}}
+    sens = [kit.ground_sensor(24001, SITE[0], SITE[1], covariance=cov, **wide), kit.ground_sensor(24002, SITE[0] + 2, SITE[1] - 1, covariance=cov, **wide)]
     evs = []
     for e in c["events"]:
         if e["kind"] == "add":
@@ -84,7 +87,8 @@ def _config(c, total_steps):
     # the configured stop may lie before the end of what is actually run: the clock writes epoch rows up to the stop in advance,
     # beyond it the output routine adds them itself
     span_steps = max(1, total_steps + 2 - c.get("past_stop", 0) * 3)
-    return kit.scenario_config(t0, t0 + timedelta(seconds=span_steps * dt), dt, [kit.engine(1, sens, tgts)], output_dt=c["out"],
+    eng = kit.engine(1, sens, tgts, decision=c.get("policy", "MunkresDecision"))
+    return kit.scenario_config(t0, t0 + timedelta(seconds=span_steps * dt), dt, [eng], output_dt=c["out"], observation={"background": True},
                                truth_only=c["truth_only"], events=evs, seq_filter=seq)
 
 
@@ -209,6 +213,7 @@ def histories(c, rec):
     nontrivial = out != dt or len(c["ops"]) >= 2 or bool(c["events"]) or any(o["fault"] is not None for o in c["ops"])
     if nontrivial:
         rec.nontrivial([dt, out, tuple((o["steps"], o["fault"]) for o in c["ops"]), tuple(e["kind"] for e in c["events"]), c["truth_only"], c["filter_steps"], c["detect"]])
+    rec.label("policy:" + c.get("policy", "MunkresDecision"))
     rec.label("out==dt" if out == dt else ("out multiple" if out % dt == 0 else "out non-multiple"))
     if c.get("past_stop") and total + 2 - c["past_stop"] * 3 < total:
         rec.label("run_continues_past_configured_stop")
